@@ -726,7 +726,11 @@ func (lh *levelHandler) searchL0SST(key []byte) (*kv.Entry, error) {
 		version uint64
 		best    *kv.Entry
 	)
-	for _, table := range lh.tables {
+	// L0 tables are sorted by file id (oldest first). Walk them newest-first so
+	// that, when several tables hold the same version of a key (non-transactional
+	// writes all use the max version), the most recently flushed table wins.
+	for i := len(lh.tables) - 1; i >= 0; i-- {
+		table := lh.tables[i]
 		if table == nil {
 			continue
 		}
